@@ -165,7 +165,9 @@ func jschemaS(b *schema.BodySchema) (S, bool) {
 				continue
 			}
 			if len(dk.Labels) != 1 || len(dk.Attrs) != 0 {
-				return nil, false // the model covers dependent bodies selected by one label or by one attribute
+				// (bodies selected by label AND attribute - two-step lookups - are outside the JSON model:
+				// configurations using such block types are not turned into model cases)
+				continue
 			}
 			deps = append(deps, L(Int(dk.Labels[0].Index), Str(dk.Labels[0].Value), d))
 		}
@@ -230,6 +232,11 @@ func realContentS(body hcl.Body, sch *schema.BodySchema, src []byte, native bool
 }
 
 func jsonCases(run *Run, db DBody, nat, js string) {
+	for _, k := range db.Blocks {
+		if k.Type == "data" {
+			return // two-step dependent bodies: paired-rendering oracle only
+		}
+	}
 	sch := tfSchema()
 	schS, ok := jschemaS(sch)
 	if !ok {
@@ -483,6 +490,11 @@ func mutateBlockValue(r *rand.Rand, v JV, bs *schema.BlockSchema, labelsLeft int
 }
 
 func jsonVariantCases(run *Run, r *rand.Rand, db DBody) {
+	for _, k := range db.Blocks {
+		if k.Type == "data" {
+			return
+		}
+	}
 	sch := tfSchema()
 	schS, ok := jschemaS(sch)
 	if !ok {
